@@ -5,7 +5,6 @@ package net
 import (
 	"encoding/binary"
 	"fmt"
-	"net"
 	"strings"
 	"sync"
 	"sync/atomic"
@@ -204,7 +203,7 @@ func TestC11_Handshake(t *testing.T) {
 		v := variants[rapid.IntRange(0, len(variants)-1).Draw(rt, "variant")]
 		mk := marker()
 		before := e.hOK.Load()
-		c, err := net.DialTimeout("tcp", e.srv.Addr, 5*time.Second)
+		c, err := netfx.DialLoopback(e.srv.Addr, 5*time.Second)
 		if err != nil {
 			rt.Fatalf("infrastructure: %v", err)
 		}
